@@ -296,23 +296,33 @@ class SymArray:
         go(self.data)
         return flat
 
-    def all(self):
-        r = True
-        for x in self._flat():
+    @staticmethod
+    def _fold(vals, conj):
+        r = conj
+        for x in vals:
             if isinstance(x, Sym) or isinstance(r, Sym):
-                r = symx.And(r, x)
+                r = symx.And(r, x) if conj else symx.Or(r, x)
             else:
-                r = r and bool(x)
+                r = (r and bool(x)) if conj else (r or bool(x))
         return r
 
-    def any(self):
-        r = False
-        for x in self._flat():
-            if isinstance(x, Sym) or isinstance(r, Sym):
-                r = symx.Or(r, x)
-            else:
-                r = r or bool(x)
-        return r
+    def _reduce_bool(self, conj, axis):
+        if axis is None:
+            return self._fold(self._flat(), conj)
+        if self.ndim == 1 and axis in (0, -1):
+            return self._fold(self.data, conj)
+        if self.ndim == 2 and axis in (1, -1):  # per row
+            return SymArray([self._fold(r, conj) for r in self.data], "bool")
+        if self.ndim == 2 and axis in (0, -2):  # per column
+            ncol = len(self.data[0]) if self.data else 0
+            return SymArray([self._fold([r[c] for r in self.data], conj) for c in range(ncol)], "bool")
+        raise Unsupported("all/any along that axis")
+
+    def all(self, axis=None):
+        return self._reduce_bool(True, axis)
+
+    def any(self, axis=None):
+        return self._reduce_bool(False, axis)
 
     # min/max/clip fork (plain Python comparisons) rather than build ite terms: the results feed
     # floor/ceil and integer casts, and ite under to_int is what makes z3 give up
